@@ -118,8 +118,8 @@ def outcome(fn, *a, **k):
     try:
         return ("ok", fn(*a, **k))
     except BaseException as e:  # noqa: BLE001
-        if isinstance(e, (KeyboardInterrupt, SystemExit, MemoryError)):
-            raise
+        if isinstance(e, (KeyboardInterrupt, SystemExit, MemoryError)) or type(e).__name__ == "Hang":
+            raise          # (a wall-clock allowance running out is the case's verdict, not an answer of the call that happened to be running)
         info = {}
         for attr in ("pid", "name", "ppid", "seconds", "errno"):
             if hasattr(e, attr):
@@ -420,7 +420,7 @@ class deadline:
         self.active = threading.current_thread() is threading.main_thread()
         if self.active:
             self.old = signal.signal(signal.SIGALRM, self._fire)
-            signal.setitimer(signal.ITIMER_REAL, self.s)
+            signal.setitimer(signal.ITIMER_REAL, self.s, 5)      # (and again every 5 s, should the code under test swallow it)
         return self
 
     def __exit__(self, *a):
